@@ -993,22 +993,6 @@ double sexp_to_double (sexp ctx, sexp x) {
 
 #if SEXP_USE_COMPLEX
 
-static sexp sexp_complex_copy (sexp ctx, sexp a) {
-  sexp_gc_var1(res);
-  sexp_gc_preserve1(ctx, res);
-  res = sexp_make_complex(ctx, sexp_complex_real(a), sexp_complex_imag(a));
-  if (sexp_flonump(sexp_complex_real(a)))
-    sexp_complex_real(a) = sexp_make_flonum(ctx, sexp_flonum_value(sexp_complex_real(a)));
-  else if (sexp_bignump(sexp_complex_real(a)))
-    sexp_complex_real(a) = sexp_copy_bignum(ctx, NULL, sexp_complex_real(a), 0);
-  if (sexp_flonump(sexp_complex_imag(a)))
-    sexp_complex_imag(a) = sexp_make_flonum(ctx, sexp_flonum_value(sexp_complex_imag(a)));
-  else if (sexp_bignump(sexp_complex_imag(a)))
-    sexp_complex_imag(a) = sexp_copy_bignum(ctx, NULL, sexp_complex_imag(a), 0);
-  sexp_gc_release1(ctx);
-  return res;
-}
-
 sexp sexp_complex_add (sexp ctx, sexp a, sexp b) {
   sexp_gc_var3(res, real, imag);
   sexp_gc_preserve3(ctx, res, real, imag);
@@ -1020,14 +1004,13 @@ sexp sexp_complex_add (sexp ctx, sexp a, sexp b) {
 }
 
 sexp sexp_complex_sub (sexp ctx, sexp a, sexp b) {
-  sexp_gc_var2(res, tmp);
-  sexp_gc_preserve2(ctx, res, tmp);
-  tmp = sexp_complex_copy(ctx, b);
-  sexp_negate_maybe_ratio(sexp_complex_real(tmp));
-  sexp_negate_maybe_ratio(sexp_complex_imag(tmp));
-  res = sexp_complex_add(ctx, a, tmp);
-  sexp_gc_release2(ctx);
-  return res;
+  sexp_gc_var3(res, real, imag);
+  sexp_gc_preserve3(ctx, res, real, imag);
+  real = sexp_sub(ctx, sexp_complex_real(a), sexp_complex_real(b));
+  imag = sexp_sub(ctx, sexp_complex_imag(a), sexp_complex_imag(b));
+  res = sexp_make_complex(ctx, real, imag);
+  sexp_gc_release3(ctx);
+  return sexp_complex_normalize(res);
 }
 
 sexp sexp_complex_mul (sexp ctx, sexp a, sexp b) {
@@ -1488,38 +1471,24 @@ sexp sexp_sub (sexp ctx, sexp a, sexp b) {
 #endif
 #if SEXP_USE_COMPLEX
 #if SEXP_USE_RATIOS
-  case SEXP_NUM_RAT_CPX:
-    a = tmp1 = sexp_make_flonum(ctx, sexp_ratio_to_double(ctx, a));
-    goto complex_sub;
   case SEXP_NUM_CPX_RAT:
-    b = tmp1 = sexp_make_flonum(ctx, sexp_ratio_to_double(ctx, b));
-    /* ... FALLTHROUGH ... */
 #endif
   case SEXP_NUM_CPX_FLO:
   case SEXP_NUM_CPX_FIX:
   case SEXP_NUM_CPX_BIG:
-    tmp1 = a; a = b; b = tmp1;
-    negatep = 1;
-    /* ... FALLTHROUGH ... */
+    b = tmp1 = sexp_make_complex(ctx, b, SEXP_ZERO);
+    r = sexp_complex_sub(ctx, a, b);
+    break;
+#if SEXP_USE_RATIOS
+  case SEXP_NUM_RAT_CPX:
+#endif
   case SEXP_NUM_FLO_CPX:
   case SEXP_NUM_FIX_CPX:
   case SEXP_NUM_BIG_CPX:
     a = tmp1 = sexp_make_complex(ctx, a, SEXP_ZERO);
     /* ... FALLTHROUGH ... */
   case SEXP_NUM_CPX_CPX:
-#if SEXP_USE_RATIOS
-  complex_sub:
-#endif
-    r = tmp1 = sexp_complex_sub(ctx, a, b);
-    if (negatep) {
-      if (sexp_complexp(r)) {
-        r = sexp_complex_copy(ctx, r);
-        sexp_negate_maybe_ratio(sexp_complex_real(r));
-        sexp_negate_maybe_ratio(sexp_complex_imag(r));
-      } else {
-        sexp_negate_maybe_ratio(r);
-      }
-    }
+    r = sexp_complex_sub(ctx, a, b);
     break;
 #endif
   }
